@@ -804,12 +804,12 @@ class SamplingMethod(DirectMethod):
         subst_from = []
         subst_to = []
         for offset in offsets.keys():
-            if k==-1 and offset>0:
-                raise IndexError()
-            if k+offset<0:
+            # k==-1 denotes the final node N
+            node = self.N if k==-1 else k
+            if node+offset<0 or node+offset>self.N:
                 raise IndexError()
             subst_from.append(vvcat(symbols[offset]))
-            subst_to.append(self._eval_at_control(stage, vvcat(offsets[offset]), k+offset))
+            subst_to.append(self._eval_at_control(stage, vvcat(offsets[offset]), node+offset))
             #print(expr, subst_from, subst_to)
 
 
